@@ -31,6 +31,7 @@ func verifyVPCheck(p *Prog) Check {
 }
 
 func c02(r *Report) {
+	defer c02Seed7(r)
 	defer c02Seed5(r)
 	defer c02Seed6(r)
 	p := r.P
